@@ -310,8 +310,19 @@ def compare(ob, repo_prog, ref_prog, module, fname, same_term, backend='ecdsa'):
               'BITAND', 'BITOR', 'BITXOR', 'LEN', 'GETITEM', 'SLICE', 'CAT', 'NEG', 'POW', 'ORD', 'INT', 'SER'}
 
     def st(ob_, found, expected, what, where_=None):
-        return same_term(ob_, canon(found) if found is not None else None, canon(expected) if expected is not None else None,
-                         what, where_, vocab=vocab)
+        cf = canon(found) if found is not None else None
+        ce = canon(expected) if expected is not None else None
+        if cf is not None and ce is not None and cf != ce:
+            cases = _bit_table_cases(cf, ce)
+            if cases is not None:
+                # one side looks a value up in a constant table indexed by the low bits of X where the other tests those bits
+                # one by one: decided by the finite case analysis over the index (2^n entries), nothing is executed
+                ob_.evaluations += len(cases)
+                for k, fk, ek in cases:
+                    if fk != ek:
+                        return same_term(ob_, fk, ek, '%s [table entry %d]' % (what, k), where_, vocab=vocab)
+                return same_term(ob_, ce, ce, what, where_, vocab=vocab)
+        return same_term(ob_, cf, ce, what, where_, vocab=vocab)
     _cmp_recs(ob, a, b, fname, where, st)
 
 
@@ -441,6 +452,41 @@ def _leadrun(r):
     return None
 
 
+def _bit_table_cases(a, b):
+    """a or b contains TABLE[X & (2^n - 1)] with a constant table of 2^n entries (n <= 6).  For every k in 0 .. 2^n - 1 both
+    terms are specialised to "the low n bits of X are k": the masked index becomes k, every single-bit test (X >> i) & 1 with
+    i < n becomes bit i of k.  Returns [(k, a_k, b_k)] or None when no such table look-up is present."""
+    hit = None
+    for side in (a, b):
+        for x in T.walk(side):
+            if T.is_op(x, 'GETITEM') and len(x) == 4 and T.tag(x[2]) in ('tuple', 'list') and all(T.is_const(y) for y in x[2][1]) \
+                    and T.is_op(x[3], 'BITAND') and len(x[3]) == 4:
+                n_ = len(x[2][1])
+                m, X = (x[3][2], x[3][3]) if T.is_const(x[3][2]) else (x[3][3], x[3][2])
+                if T.is_const(m) and isinstance(m[1], int) and n_ in (2, 4, 8, 16, 32, 64) and m[1] == n_ - 1 and not T.is_const(X):
+                    hit = (x[3], X, n_)
+                    break
+        if hit:
+            break
+    if hit is None:
+        return None
+    masked, X, n_ = hit
+    nbits = n_.bit_length() - 1
+    out = []
+    for k in range(n_):
+        mp = {masked: T.const(k)}
+        for i in range(nbits):
+            bit = T.const((k >> i) & 1)
+            sh = X if i == 0 else T.op('RSHIFT', X, T.const(i))
+            for one in (T.op('BITAND', T.const(1), sh), T.op('BITAND', sh, T.const(1)), ('op', 'BITAND', T.const(1), sh), ('op', 'BITAND', sh, T.const(1))):
+                mp[one] = bit
+            # (X & 2^i) as a truth value
+            for pw in (T.op('BITAND', T.const(1 << i), X), ('op', 'BITAND', T.const(1 << i), X), ('op', 'BITAND', X, T.const(1 << i))):
+                mp[pw] = T.const(((k >> i) & 1) << i)
+        out.append((k, canon(T.subst(a, mp)), canon(T.subst(b, mp))))
+    return out
+
+
 def _const_leaf_chain(t, _n=0):
     if T.tag(t) == 'phi':
         return _n < 80 and _const_leaf_chain(t[2], _n + 1) and _const_leaf_chain(t[3], _n + 1)
@@ -451,6 +497,10 @@ def _lift_compare(opname, tree, k, tree_left):
     if T.tag(tree) != 'phi':
         try:
             a, b = (tree[1], k[1]) if tree_left else (k[1], tree[1])
+            if opname == 'IS':
+                if a is None or b is None:
+                    return T.const(a is None and b is None)
+                raise TypeError
             return T.const(a < b if opname == 'LT' else a == b)
         except TypeError:
             return T.raw_op(opname, tree, k) if tree_left else T.raw_op(opname, k, tree)
@@ -514,11 +564,32 @@ def canon(t, _memo=None):
             r = out
         # a comparison of a case analysis with constant outcomes (the position of a character in an alphabet) against a
         # constant is the disjunction of the cases in which it holds: `ALPHABET.find(c) < 0` is "c is none of the letters"
-        if isinstance(r, tuple) and T.is_op(r) and r[1] in ('LT', 'EQ') and len(r) == 4:
+        if isinstance(r, tuple) and T.is_op(r) and r[1] in ('LT', 'EQ', 'IS') and len(r) == 4:
             for pi, ki in ((2, 3), (3, 2)):
                 if T.tag(r[pi]) == 'phi' and T.is_const(r[ki]) and _const_leaf_chain(r[pi]):
                     r = _lift_compare(r[1], r[pi], r[ki], pi == 2)
                     break
+        if isinstance(r, tuple) and T.is_op(r, 'BITXOR') and len(r) == 4:
+            # xor on integers is associative and commutative: one flat spelling, constants folded into one
+            ops, stack = [], [r]
+            while stack:
+                x = stack.pop()
+                if T.is_op(x, 'BITXOR') and len(x) == 4:
+                    stack.extend([x[3], x[2]])
+                else:
+                    ops.append(x)
+            consts = [x for x in ops if T.is_const(x) and type(x[1]) is int]
+            rest = [x for x in ops if not (T.is_const(x) and type(x[1]) is int)]
+            if (consts or any(T.type_of(x) == 'int' for x in rest)) and not any(T.is_const(x) for x in rest) and len(ops) > 2:
+                c = 0
+                for x in consts:
+                    c ^= x[1]
+                rest = sorted(rest, key=repr)
+                parts = ([T.const(c)] if c else []) + rest
+                acc = parts[-1] if parts else T.const(0)
+                for x in reversed(parts[:-1]):
+                    acc = ('op', 'BITXOR', x, acc)
+                r = acc
         if isinstance(r, tuple) and T.is_op(r, 'NOT') and len(r) == 3 and (T.is_op(r[2], 'AND') or T.is_op(r[2], 'OR') or T.is_op(r[2], 'NOT')
                                                                          or T.is_const(r[2])):
             r = T.not_(r[2])          # De Morgan through the smart constructor: NOT(AND(NOT a, NOT b)) is OR(a, b)
@@ -704,6 +775,9 @@ def _must_raise(x):
     if T.tag(x) == 'phi':
         return _must_raise(x[2]) and _must_raise(x[3])
     if T.tag(x) == 'op':
+        if x[1] in ('ADD', 'SUB', 'MUL', 'FLOORDIV', 'MOD', 'LSHIFT', 'RSHIFT', 'BITAND', 'BITOR', 'BITXOR', 'NEG', 'POW', 'LT') \
+                and any(y == T.NONE for y in x[2:]):
+            return True         # arithmetic / ordering on None is a TypeError
         return any(_must_raise(y) for y in x[2:] if isinstance(y, tuple))
     if T.tag(x) in ('tuple', 'list'):
         return any(_must_raise(y) for y in x[1])
